@@ -1,7 +1,7 @@
 #!/bin/bash
 # regress_seeded.sh [ids...]: re-run every seeded change (seeded/M*/patch.diff) against the check that is recorded as
 # catching it, on the CURRENT machinery and the current /repo HEAD. One line per change: caught / MISSED / patch-does-not-apply.
-# Scratch worktrees and the simulator builds made for them are removed after each change.
+# Scratch worktrees and the simulator builds made for them (under /tmp/reg-build) are removed after each change.
 cd /verif
 OUT=${REGRESS_OUT:-/tmp/regress_seeded.log}
 : > $OUT
@@ -21,15 +21,13 @@ print(ids[0] if ids else '')")
     echo "$id $props patch-does-not-apply (the code it changes was changed by a later fix)" | tee -a $OUT
     git -C /repo worktree remove --force $W >/dev/null 2>&1; rm -rf $W; continue
   fi
-  before=$(ls build)
-  res=$(VERIF_REPO=$W VERIF_EVID=/tmp/reg-evid VERIF_REPLAYS=/tmp/reg-replays ./check $props quick 2>&1)
+  res=$(VERIF_REPO=$W VERIF_EVID=/tmp/reg-evid VERIF_REPLAYS=/tmp/reg-replays VERIF_BUILD=/tmp/reg-build ./check $props quick 2>&1)
   rc=$?
   key=$(echo "$res" | grep -m1 "^VIOLATION" | sed 's/.*key=\([^ ]*\).*/\1/')
   if [ $rc -eq 1 ] && [ -n "$key" ]; then echo "$id $props caught $key" | tee -a $OUT
   elif [ $rc -eq 2 ]; then echo "$id $props exit2 $(echo "$res" | grep -m1 HARNESS | cut -c1-160)" | tee -a $OUT
   else echo "$id $props MISSED rc=$rc" | tee -a $OUT; fi
-  for b in $(ls build); do case " $before " in *"$b"*) ;; *) rm -rf build/$b;; esac; done
-  git -C /repo worktree remove --force $W >/dev/null 2>&1; rm -rf $W /tmp/reg-evid /tmp/reg-replays
+  git -C /repo worktree remove --force $W >/dev/null 2>&1; rm -rf $W /tmp/reg-evid /tmp/reg-replays /tmp/reg-build
 done
 git -C /repo worktree prune
 echo "done: $(grep -c ' caught ' $OUT) caught, $(grep -c MISSED $OUT) missed, $(grep -c 'does-not-apply' $OUT) not applicable, $(grep -c exit2 $OUT) exit 2" | tee -a $OUT
